@@ -147,6 +147,12 @@ Theorem result_slot_outlives_execution : forall cfg own sched, wf_cfg cfg own ->
 Proof. exact result_slot_outlives_execution_lemma. Qed.
 Print Assumptions result_slot_outlives_execution.
 
+Example ex_result_slot_outlives_execution :
+  exists newer c clean older,
+    snd (exec (ds_cfg true) ds_sched) = newer ++ EvDestroy c 0 clean :: older /\
+    latest_start older 0 1 5 /\ runs older 0 1 = 1%nat /\ In (EvStore 0 1 38) older.
+Proof. exact ex_result_slot_lemma. Qed.
+
 Theorem destructor_waits_refuted_original :
   exists cfg own sched,
     wf_cfg cfg own /\ c_fixed cfg = true /\ c_sigfix cfg = false /\
